@@ -144,8 +144,11 @@ PROPS['C07'] = {
         H(ROOT + 'c07::c07_k_flag_bits', ['ctap2::AuthenticatorDataFlags (bitflags!)']),
         H(ROOT + 'c07::c07_k_get_assertion_no_extensions', ['ctap2::AuthenticatorData::serialize (get_assertion flavour)'],
           kind='gc', bound='real heapless-bytes code; extensions: None'),
+        H(ROOT + 'c07::c07_k_make_credential_tiny', ['ctap2::AuthenticatorData::serialize (make_credential flavour)',
+          'make_credential::AttestedCredentialData::serialize'], kind='gc', bound='aaguid <= 2, credential id <= 2, key <= 1 bytes'),
         H(ROOT + 'c07::c07_k_make_credential_small', ['ctap2::AuthenticatorData::serialize (make_credential flavour)',
-          'make_credential::AttestedCredentialData::serialize'], kind='gc', bound='aaguid <= 17, credential id <= 3, key <= 3 bytes'),
+          'make_credential::AttestedCredentialData::serialize'], kind='gc', bound='aaguid <= 17, credential id <= 3, key <= 3 bytes',
+          tier='thorough', timeout=1500),
         H(ROOT + 'c07::c07_k_capacity_frontier', ['ctap2::AuthenticatorData::serialize'], kind='gc',
           bound='five concrete length splits around 676/677', tier='thorough', timeout=1500),
     ],
@@ -242,3 +245,146 @@ PROPS['C16'] = {
                    'guards a member. ' + _D_NOTE,
 }
 PROPS['C05']['decl'] = True
+
+# ---------------------------------------------------------------------------------------------
+# Kani harness sets shared by several properties
+GC_DECODE = [
+    H(ROOT + 'gc::gc_k_large_blobs_request_decode', ['derived DeserializeIndexed for large_blobs::Request', 'ctap2::Request::deserialize'],
+      kind='gc', bound='one concrete message shape, three symbolic leaves < 24'),
+    H(ROOT + 'gc::gc_k_large_blobs_request_faults', ['derived DeserializeIndexed for large_blobs::Request', 'cbor-smol de.rs', 'ctap2::Request::deserialize'],
+      kind='gc', bound='nine concrete fault messages'),
+]
+GC_OPTIONS = [
+    H(ROOT + 'gc::gc_k_options_decode_and_unknown', ['derived Deserialize for AuthenticatorOptions', 'cbor-smol ignore()'],
+      kind='gc', bound='one unknown member at three positions, six value shapes'),
+]
+GC_CAP = [
+    H(ROOT + 'gc::gc_k_param_type_capacity', ['derived Deserialize for PublicKeyCredentialParameters', 'heapless String<32>'],
+      kind='gc', bound='type strings of exactly 32 and 33 bytes'),
+]
+GC_ROUNDTRIP = [
+    H(ROOT + 'gc::gc_k_roundtrip_small', ['derived (De)SerializeIndexed for large_blobs::Request', 'derived serde impls for AuthenticatorOptions'],
+      kind='gc', bound='two concrete shapes'),
+]
+K_C03_HEADS = [
+    H(ROOT + 'c03::c03_k_uint_heads', ['cbor-smol ser.rs (u64) — dependency contract A6, checked']),
+    H(ROOT + 'c03::c03_k_int_heads', ['cbor-smol ser.rs (i64, i32) — dependency contract A6, checked']),
+    H(ROOT + 'c03::c03_k_small_scalars', ['cbor-smol ser.rs (u8, bool, usize) — dependency contract A6, checked']),
+    H(ROOT + 'c03::c03_k_string_heads_short', ['cbor-smol ser.rs (byte strings)'], kind='bounded', bound='lengths 0..=30'),
+    H(ROOT + 'c03::c03_k_string_heads_255_256', ['cbor-smol ser.rs (byte strings)'], kind='bounded', bound='lengths 255 and 256',
+      tier='thorough', timeout=1500),
+]
+K_FILTERED_SER = [
+    H(WEB + 'c02_k_filtered_params_serialize', ['<FilteredPublicKeyCredentialParameters as Serialize>::serialize'], kind='bounded',
+      bound='0..=2 entries, algorithms -1..-24', tier='thorough', timeout=1800),
+]
+K_C18_STRINGS = [
+    H(ROOT + 'c18::c18_k_version_strings', ['Version::try_from(&str)', '<&str>::from(Version)'], kind='proof',
+      note='all strings up to 20 bytes; longer ones cannot equal a <= 17 byte constant (A11)'),
+    H(ROOT + 'c18::c18_k_extension_strings', ['Extension::try_from(&str)', '<&str>::from(Extension)']),
+    H(ROOT + 'c18::c18_k_transport_and_format_strings', ['Transport::try_from(&str)', 'AttestationStatementFormat::try_from(&str)', 'From impls']),
+    H(ROOT + 'c18::c18_k_permission_bits', ['client_pin::Permissions (bitflags!)']),
+    H(ROOT + 'c07::c07_k_flag_bits', ['ctap2::AuthenticatorDataFlags (bitflags!)']),
+]
+K_C17 = [
+    H(ROOT + 'c17::c17_k_client_pin_n5', ['ctap2::Response::serialize::<5>'], kind='bounded', bound='N = 5; ClientPin responses with scalar members (bodies 1..=8 bytes)'),
+    H(ROOT + 'c17::c17_k_client_pin_n8', ['ctap2::Response::serialize::<8>'], kind='bounded', bound='N = 8'),
+    H(ROOT + 'c17::c17_k_parameterless', ['ctap2::Response::serialize (Reset / Selection / Vendor)'], kind='bounded', bound='N in {1, 16}'),
+    H(ROOT + 'c17::c17_k_large_blobs_n3_n4', ['ctap2::Response::serialize (LargeBlobs)'], kind='bounded', bound='N in {3, 4}'),
+    H(ROOT + 'c17::c17_k_capacity_one_memberless_response', ['ctap2::Response::serialize::<1>'], kind='bounded', bound='N = 1, ClientPin response without members'),
+    H(ROOT + 'c17::c17_k_client_pin_n1_n2_n3', ['ctap2::Response::serialize::<1|2|3>'], kind='bounded', bound='N in {1, 2, 3}', tier='thorough', timeout=1800),
+    H(ROOT + 'c17::c17_k_client_pin_n16', ['ctap2::Response::serialize::<16>'], kind='bounded', bound='N = 16', tier='thorough', timeout=1800),
+]
+K_C13 = [
+    H(WEB + 'c13_k_is_utf8_char_boundary', ['webauthn::is_utf8_char_boundary']),
+    H(WEB + 'c13_k_floor_char_boundary_contract', ['webauthn::floor_char_boundary'], kind='bounded',
+      bound='exact UTF-8 precondition; strings <= 6 bytes; every index', timeout=900),
+    H(WEB + 'c13_k_floor_char_boundary_window', ['webauthn::floor_char_boundary'], kind='bounded',
+      bound='window precondition (A12); strings <= 300 bytes; every index'),
+    H(WEB + 'c13_k_truncate_uses_contract_l3', ['webauthn::truncate::<3> (against the contract of floor_char_boundary)'], kind='bounded',
+      bound='strings <= 6 bytes'),
+    H(WEB + 'c13_k_truncate_uses_contract_l1_l2_l4', ['webauthn::truncate::<1|2|4>'], kind='bounded', bound='strings <= 6 bytes', tier='thorough', timeout=1800),
+    H(WEB + 'c13_k_truncate_64_window', ['webauthn::truncate::<64>', 'webauthn::floor_char_boundary'], kind='bounded',
+      bound='texts <= 300 bytes, window precondition around the cut'),
+    H(WEB + 'c13_k_user_icon_keep_or_drop', ['webauthn::deserialize_from_str_and_skip_if_too_long::<_, 128>'], kind='bounded',
+      bound='ASCII texts of 0..=300 bytes', timeout=900),
+    H(WEB + 'c13_k_rp_icon_discarded', ['<webauthn::Icon as Deserialize>::deserialize'], kind='bounded', bound='ASCII texts of 0..=300 bytes'),
+    H(WEB + 'c13_k_floor_char_boundary_contract_8', ['webauthn::floor_char_boundary'], kind='bounded',
+      bound='exact UTF-8 precondition; strings <= 8 bytes', tier='thorough', timeout=2400),
+]
+K_C14 = [
+    H(WEB + 'c14_k_known_parameters', ['<KnownPublicKeyCredentialParameters as TryFrom<PublicKeyCredentialParameters>>::try_from'], kind='proof',
+      note='every i32; type strings up to 12 bytes'),
+    H(ROOT + 'c14::c14_k_filtered_params_upto3', ['<FilteredPublicKeyCredentialParameters as Deserialize>::deserialize (visit_seq loop)'],
+      kind='bounded', bound='lists of 0..=3 symbolic entries'),
+    H(ROOT + 'c14::c14_k_attestation_formats_upto3', ['<AttestationFormatsPreference as Deserialize>::deserialize (visit_seq loop)'],
+      kind='bounded', bound='lists of 0..=3 symbolic entries'),
+    H(ROOT + 'c14::c14_k_filtered_params_upto6', ['<FilteredPublicKeyCredentialParameters as Deserialize>::deserialize (visit_seq loop)'],
+      kind='bounded', bound='lists of 0..=6 symbolic entries', tier='thorough', timeout=2400),
+    H(ROOT + 'c14::c14_k_attestation_formats_upto5', ['<AttestationFormatsPreference as Deserialize>::deserialize (visit_seq loop)'],
+      kind='bounded', bound='lists of 0..=5 symbolic entries', tier='thorough', timeout=2400),
+]
+
+PROPS['C13'] = {
+    'level': 'model_checking',
+    'decl': False,
+    'kani': K_C13,
+    'assumptions': ['A8', 'A12', 'AK', 'AS'],
+    'explanation': 'Kani function contract on floor_char_boundary (result == the longest boundary prefix, no UB at '
+                   'unwrap_unchecked) proved for all valid UTF-8 strings up to 6 (thorough: 8) bytes and, under the window '
+                   'precondition, up to 300 bytes; truncate proved against that contract (not the body); icon handling proved for '
+                   'all ASCII texts up to 300 bytes. Bounded in the string length, unbounded in index / capacity argument. '
+                   'Rejection of ill-formed UTF-8 is the decoder\'s from_utf8 (A8).',
+}
+PROPS['C14'] = {
+    'level': 'model_checking',
+    'kani': K_C14,
+    'assumptions': ['A2', 'A8', 'AK', 'AS'],
+    'explanation': 'TryFrom for known parameters: complete over all i32 and type strings up to 12 bytes. The two filtering loops '
+                   'are driven through the real Deserialize impls by a mock SeqAccess yielding symbolic entries: lists up to 3 '
+                   '(thorough: 6 / 5) entries, result == first two known entries in order, unknown flag exact, never an error. '
+                   'Bounded in the list length.',
+}
+PROPS['C17'] = {
+    'level': 'model_checking',
+    'kani': K_C17,
+    'assumptions': ['A6', 'AK', 'AS'],
+    'explanation': 'Contract of Response::serialize::<N> (complete message or [7F], independent of the pre-fill) checked by Kani for '
+                   'a finite set of capacities N with bodies crossing each N; labelled bounded (N is a const generic).',
+}
+PROPS['C04'] = {
+    'level': 'other',
+    'decl': True,
+    'verus': ['c05_request_deserialize'],
+    'kani': K_C13 + K_C14[:3],
+    'assumptions': ['A8', 'A12', 'AK', 'AV', 'AX'],
+    'explanation': 'This family cannot decide C04 as quantified (any byte string through the whole decoder: symbolic bytes through '
+                   'cbor-smol exhaust memory). Decided instead: every potential panic / UB / overflow site in the repo\'s own '
+                   'decode-path functions (mechanical inventory, spec/panic_sites.json; a new site makes the check undecided) is '
+                   'covered by a discharged contract: Request::deserialize prelude (Verus, all messages), floor_char_boundary / '
+                   'truncate / icon helpers (Kani), the two bounded-push visitors (Kani). That cbor-smol, heapless and the '
+                   'serde-generated visitors do not panic and terminate is the assumed contract A8.',
+}
+PROPS['C19'] = {
+    'level': 'model_checking',
+    'kani': [
+        H(ARB + 'c19_k_arbitrary_str_4', ['arbitrary::arbitrary_str::<4>'], kind='bounded', bound='inputs <= 16 bytes', features='arbitrary', timeout=1200),
+        H(ARB + 'c19_k_arbitrary_bytes', ['arbitrary::arbitrary_bytes::<4|32>'], kind='bounded', bound='inputs <= 16 bytes', features='arbitrary', timeout=1200),
+        H(ARB + 'c19_k_arbitrary_byte_array', ['arbitrary::arbitrary_byte_array::<8>'], kind='bounded', bound='inputs <= 16 bytes', features='arbitrary', timeout=1200),
+        H(ARB + 'c19_k_arbitrary_vec', ['arbitrary::arbitrary_vec::<u8, 3>'], kind='bounded', bound='inputs <= 16 bytes', features='arbitrary', timeout=1200),
+        H(ARB + 'c19_k_arbitrary_str_64', ['arbitrary::arbitrary_str::<64>'], kind='bounded', bound='inputs <= 16 bytes', features='arbitrary', tier='thorough', timeout=2400),
+        H(ARB + 'c19_k_ctap1_request', ['<ctap1::Request as Arbitrary>::arbitrary'], kind='bounded', bound='inputs <= 68 bytes', features='arbitrary', tier='thorough', timeout=2400),
+    ],
+    'assumptions': ['AK'],
+    'explanation': 'Contracts on the private generator helpers (valid UTF-8 at the from_utf8_unchecked site, capacity at the unwrap '
+                   'sites, readable bytes behind the pointer cast), bounded in the input length.',
+}
+
+PROPS['C01']['kani'] = GC_DECODE + GC_OPTIONS
+PROPS['C02']['kani'] = K_C17[:5] + K_FILTERED_SER + GC_ROUNDTRIP
+PROPS['C03']['kani'] = K_C03_HEADS + K_FILTERED_SER
+PROPS['C05']['kani'] = GC_DECODE[1:]
+PROPS['C06']['kani'] = GC_OPTIONS
+PROPS['C12']['kani'] = GC_CAP
+PROPS['C15']['kani'] = GC_ROUNDTRIP + K_C18_STRINGS[:3]
+PROPS['C18']['kani'] = K_C18_STRINGS
